@@ -19,12 +19,12 @@ func mathFloat64bits(f float64) uint64 { return math.Float64bits(f) }
 func mathFloat32bits(f float32) uint32 { return math.Float32bits(f) }
 
 type program struct {
-	fset  *token.FileSet
-	pkgs  []*packages.Package
-	prog  *ssa.Program
-	spkgs map[string]*ssa.Package // by package name (last path element)
-	ppkgs map[string]*packages.Package
-	funcs map[string]*ssa.Function // "pkg.(*T).M", "pkg.F", "pkg.F$1"
+	fset     *token.FileSet
+	pkgs     []*packages.Package
+	prog     *ssa.Program
+	spkgs    map[string]*ssa.Package // by package name (last path element)
+	ppkgs    map[string]*packages.Package
+	funcs    map[string]*ssa.Function // "pkg.(*T).M", "pkg.F", "pkg.F$1"
 	srcCache map[string][]byte
 }
 
@@ -212,10 +212,10 @@ func (p *program) src(pos token.Pos, end token.Pos) string {
 // ---- loops ----------------------------------------------------------------
 
 type loopInfo struct {
-	header *ssa.BasicBlock
-	blocks map[*ssa.BasicBlock]bool
+	header  *ssa.BasicBlock
+	blocks  map[*ssa.BasicBlock]bool
 	ordinal int
-	pos    token.Pos
+	pos     token.Pos
 }
 
 // findLoops identifies natural loops via back edges (target dominates source).
